@@ -121,7 +121,12 @@ def require_model_ok(res, what):
 # ----------------------------------------------------------------------------
 def write_json(path, obj):
   with open(path, 'w') as f:
-    json.dump(obj, f, separators=(',', ':'))
+    try:
+      json.dump(obj, f, separators=(',', ':'), allow_nan=False)
+    except ValueError as e:
+      # (a raw NaN / infinity in an event is a slip of the generator - numbers travel as dyadics - and TLC's JSON
+      #  reader would only report a malformed file)
+      raise MachineryError('a trace holds a raw non-finite float (%s): %s' % (e, path))
 
 
 def shard(traces, k):
